@@ -65,6 +65,39 @@ CLAIMED = {
     note=TRUST + "QHA.run assembly, finite differences and the least-squares fit are not yet covered by this check.",
     technique="deductive verification: symbolic execution + mechanical differentiation, exact identities",
     design="DESIGN.md section 5 C20"),
+
+ "C04": dict(
+    text="Supercell._create_supercell is executed symbolically (Python front end, 3x3 numpy mini-model) for the classic and the Smith-normal-form path with a symbolic "
+         "integer supercell matrix S and lattice L; the lattice handed to PhonopyAtoms (through _get_simple_supercell, _trim_cell, TrimmedCell._run) is proved equal to "
+         "S^T L element by element (exact rational identities). Per-atom arrays are abstracted and listed in the evidence.",
+    note=TRUST + "Only the lattice obligation is decided so far; atom counts, maps, SNF steps, primitive-cell maps and the tolerance geometry are not yet under contract. "
+         "SNF3x3 is assumed to return a unimodular P. Finding E3 (S L instead of S^T L on the SNF path) repaired by a fix: commit.",
+    technique="deductive verification: symbolic execution of the Python source with abstracted per-atom data + exact identities",
+    design="DESIGN.md section 5 C04"),
+ "C07": dict(
+    text="c/phonopy.c symmetrisers under contract: set_index_permutation_symmetry_fc (result (f+f^T)/2, index symmetric), set_translational_symmetry_fc and its compact "
+         "variant (diagonal block = -(S+S^T)/2 of the off-diagonal row sums, pointer stepping handled by an index-defining invariant), the column/row drift sweeps of "
+         "phpy_perm_trans_symmetrize_fc, and one (j,i_p) step of the compact index-permutation/transpose routine (blocks exchanged and transposed resp. averaged, "
+         "including blocks paired with themselves); get_nsym_list_and_s2pp (Python, symbolic-length arrays) establishes the translation tables the C code takes as given.",
+    note=TRUST + "Not yet decided: idempotence of the iterated level loop beyond the per-sweep contracts, the compact perm+trans driver, set_tensor_symmetry_PJ, "
+         "compact<->full conversion. numpy np.where contract assumed. Finding E2 (self-paired blocks not transposed) repaired by a fix: commit.",
+    technique="deductive verification: loop invariants with quantified array facts and recursive-sum spec functions, z3; replay on the compiled code",
+    design="DESIGN.md section 5 C07"),
+ "C12": dict(
+    text="ddm_get_derivative_dynmat_at_q: the Hermitian post-processing of the three Cartesian derivative matrices is proved (loop invariants over the (j,k) pair "
+         "loops, callee blocks by frame contract): every direction is Hermitian on return.",
+    note=TRUST + "The functional contract of get_derivative_dynmat_at_q (q-derivative of the Fourier sum), the NAC derivative, group velocities and Grueneisen "
+         "parameters are not yet under contract. Finding E9 (directions 1,2 not Hermitian) repaired by a fix: commit.",
+    technique="deductive verification: loop invariants, z3; replay on the compiled code",
+    design="DESIGN.md section 5 C12"),
+ "C14": dict(
+    text="Python access paths: IterMesh.__next__ definite assignment on every path; Phonopy.init_mesh constructs Mesh and IterMesh from equal values of every common "
+         "parameter (mesh as numbers and as length); QpointsPhonon._run buffer-ownership obligation (arrays collected for output are not overwritten in place, "
+         "for both values of use_openmp and all option combinations).",
+    note=TRUST + "Buffers of abstracted numpy arrays are tracked region-insensitively (conservative). Loops over abstracted sequences are executed as one generic "
+         "iteration. Not decided: numerical equality of the spectra across paths (reduces to C02), band connection, yaml/hdf5 output. Findings E1, E12, E14 repaired by fix: commits.",
+    technique="deductive verification: symbolic execution of the Python source with an abstract buffer-ownership model",
+    design="DESIGN.md section 5 C14"),
 }
 
 NA = {
